@@ -27,6 +27,16 @@ def make_probes(case, obs, want, shim):
             pr["overrides"] = x
     if "entries" in want:
         pr["entries"] = P.probe_entries(out, shim)
+    if "encase" in want and case.get("S") and case.get("opts", {}).get("enc"):
+        S = case["S"]
+        emitted = [st["name"] for st in out.get("structs", []) if any("encase::ShaderType" in d for d in st.get("derives", []))]
+        names = [n for n in emitted if any(d["name"] == n for d in S["structs"])]
+        uni = set()
+        for g in S["globals"]:
+            if g["space"] == "uniform" and g["ty"].get("k") == "struct":
+                uni.add(g["ty"]["name"])
+        if names:
+            pr["encase"] = P.probe_encase(S, names, uni)
     return pr
 
 
